@@ -399,6 +399,19 @@ class Flow:
     def __init__(self, methods):
         self.methods = methods; self.stale = set(); self.cfg_writes = []; self.task_writes = []; self.entropy = []
         self.reads_fitness = False; self.reads_direction = False
+        self.aliases = {}          # local name -> "_config" / "_task": bound to a sub-object of the caller's object without a copy
+
+    def alias_root(self, n):
+        """'_config' / '_task' if n denotes (a sub-object of) the caller's configuration / task"""
+        r = self_root(n)
+        if r in ("_config", "_task"): return r
+        b = n
+        while isinstance(b, (ast.Attribute, ast.Subscript)): b = b.value
+        if isinstance(b, ast.Name) and b.id in self.aliases: return self.aliases[b.id]
+        return None
+
+    def note_write(self, root, text):
+        (self.cfg_writes if root == "_config" else self.task_writes).append(text[:80])
 
     def note_use(self, a, defs):
         if a in self.methods or a in BASE_INPUT_FIELDS or a in getattr(self, "base_methods", ()) or (a.startswith("__") and a.endswith("__")): return
@@ -417,8 +430,8 @@ class Flow:
                     a = self_root(f.value)
                     if a is not None:
                         self.note_use(a, defs)
-                        if a == "_config": self.cfg_writes.append(unparse(n)[:80])
-                        if a == "_task": self.task_writes.append(unparse(n)[:80])
+                    ar = self.alias_root(f.value)
+                    if ar is not None: self.note_write(ar, unparse(n))
                 src = unparse(f)
                 if src.startswith("random.") or src in ("time.time", "time.time_ns", "time.perf_counter", "os.urandom", "uuid.uuid4", "id", "hash", "os.getpid") \
                         or "default_rng" in src or "RandomState" in src or "SystemRandom" in src or src.startswith("secrets."):
@@ -437,8 +450,9 @@ class Flow:
         a = self_root(t)
         if a is not None:
             self.note_use(a, defs)
-            if a == "_config": self.cfg_writes.append(unparse(t)[:80])
-            if a == "_task": self.task_writes.append(unparse(t)[:80])
+        if not isinstance(t, ast.Name):
+            ar = self.alias_root(t)
+            if ar is not None: self.note_write(ar, unparse(t))
         return None
 
     def block(self, body, defs, fns, depth):
@@ -447,6 +461,15 @@ class Flow:
             if isinstance(st, ast.FunctionDef): fns[st.name] = st; continue
             if isinstance(st, ast.Assign):
                 defs = self.uses(st.value, defs, fns, depth)
+                # x = self._config.<...>  (no call, no copy): x aliases a sub-object of the caller's configuration / task
+                v = st.value
+                if isinstance(v, (ast.Attribute, ast.Subscript)) and self.alias_root(v) is not None and not isinstance(v, ast.Call):
+                    if not (isinstance(v, ast.Attribute) and is_self_attr(v) and v.attr in ("_config", "_task")) or True:
+                        for t in st.targets:
+                            if isinstance(t, ast.Name): self.aliases[t.id] = self.alias_root(v)
+                else:
+                    for t in st.targets:
+                        if isinstance(t, ast.Name): self.aliases.pop(t.id, None)
                 for t in st.targets:
                     for tt in (t.elts if isinstance(t, (ast.Tuple, ast.List)) else [t]):
                         d = self.store(tt, defs)
@@ -461,8 +484,8 @@ class Flow:
                 a = self_root(st.target)
                 if a is not None:
                     self.note_use(a, defs)
-                    if a == "_config": self.cfg_writes.append(unparse(st)[:80])
-                    if a == "_task": self.task_writes.append(unparse(st)[:80])
+                ar = self.alias_root(st.target)
+                if ar is not None: self.note_write(ar, unparse(st))      # in place for lists / arrays; conservative for numbers
             elif isinstance(st, ast.If):
                 defs = self.uses(st.test, defs, fns, depth)
                 d1 = self.block(st.body, set(defs), fns, depth); d2 = self.block(st.orelse, set(defs), fns, depth)
